@@ -169,9 +169,13 @@ func cmdRun(args []string) {
 	repo := fs.String("repo", "/repo", "repository")
 	timeout := fs.Int("timeout", 10, "solver timeout (s)")
 	keep := fs.Bool("keep", false, "keep scripts")
+	contracts := fs.String("contracts", "", "contract file (default <repo>/contracts_verif.go)")
 	fs.Parse(args)
 	tstart := time.Now()
-	v, err := loadVerifier(*repo, contractPath(*repo))
+	if *contracts == "" {
+		*contracts = contractPath(*repo)
+	}
+	v, err := loadVerifier(*repo, *contracts)
 	if err != nil {
 		fmt.Fprintln(os.Stderr, "load:", err)
 		os.Exit(2)
@@ -298,6 +302,7 @@ func cmdScript(args []string) {
 	fs := flag.NewFlagSet("script", flag.ExitOnError)
 	funcs := fs.String("funcs", "", "function")
 	nth := fs.Int("n", 0, "instance")
+	all := fs.String("all", "", "write every instance to this directory")
 	fs.Parse(args)
 	if fs.NArg() < 1 {
 		usage()
@@ -314,6 +319,17 @@ func cmdScript(args []string) {
 	}
 	r := v.verifyFunc(fn)
 	k := 0
+	if *all != "" {
+		os.MkdirAll(*all, 0755)
+		for _, o := range r.Obls {
+			if o.Name == name {
+				os.WriteFile(filepath.Join(*all, fmt.Sprintf("%d.smt2", k)), []byte("; path: "+o.Path+"\n"+o.Script), 0644)
+				k++
+			}
+		}
+		fmt.Println(k, "instances written")
+		return
+	}
 	for _, o := range r.Obls {
 		if o.Name == name {
 			if k == *nth {
